@@ -102,6 +102,8 @@ def mutate(draw, node, fresh, keys, p_depth=0, neg=True):
             # mapping addressed onto the list
             n = len(node['items'])
             idxs = draw(st.lists(st.integers(-n - 1 if neg else 0, n), max_size=3, unique=True))
+            if neg and draw(st.integers(0, 2)) == 0:
+                idxs = list(draw(st.permutations([n, -1])))     # the position just past the end together with one counted from the end
             return tdoc.mp([(i, draw(mutate(node['items'][i], fresh, keys, p_depth + 1, neg)) if -n <= i < n else draw(fresh)) for i in idxs],
                            flow=draw(st.booleans()))
         if c == 1:
